@@ -321,8 +321,8 @@ def check(run):
     qi = fx.fn1('sim::queue::incoming_packet')
     mvd = [a for a in q.field_accesses(qi, {P + '::drop_fun'}) if a.kind == 'move']
     run.ok('R4', 'drop-moves-callback-out', 'sim::queue::incoming_packet', qi.loc(), 'fact used above: the dropping hop moves drop_fun out of the packet before invoking it (%d site)' % len(mvd), nontrivial=False)
-    run.floor('R10', 8)
-    run.floor('R9', 5)
+    run.floor('R10', 5)
+    run.floor('R9', 3)
 
 
 def flag_slot_agreement(run, cls, rule='R10'):
